@@ -71,6 +71,8 @@ def coq_case(case, out):
     o = out[1]
     if "skipped" in o or len(o["term"]) > 250_000 or o["n_evals"] > 1500:
         return None      # very long exhaustive searches are checked by the oracle only
+    if o["code"] == 2 and o["exc"] and o["exc"][0] == "RecursionError" and '"OverwritingHeuristic"' in case[1]:
+        return None      # ill-formed user heuristic recursing through nested solves (see oracle)
     return o["term"]
 
 
